@@ -108,6 +108,7 @@ def run(ctx):
     seq_rules(ctx)
     type_size_rules(ctx)
     plumbing(ctx)
+    accumulating_loops(ctx)
 
 
 # ------------------------------------------------------------------------------------------------
@@ -166,6 +167,27 @@ def p1(ctx, A):
         detail.append([d[0] for d in doms])
         if not (has_zero and has_arr):
             other_ok = False
+    # None means "this type cannot be laid out yet, try again later": it may only come from a size that is not known yet
+    # (`region.size(..)?`), never from the accumulator itself (a None on the zero-size path would defer the type for ever)
+    from mirlib import _edge_conds
+    nones_ = [x for x in rp.exits() if x['kind'] in ('none', 'none_prop') or (x['kind'] != 'some' and strip(x['expr'])[0] == 'agg' and strip(x['expr'])[1].endswith('Option::None'))]
+
+    def from_unknown_size(x):
+        # `region.size(..)?`, or the None arm of a match / let-else on region.size(..)
+        for _b, c_, lab_ in _edge_conds(rp, x['block']):
+            if c_[0] == 'discr' and lab_ == 'None' and size_of_region(('payload', c_[1], 'Some', 0), lambda r: r == pushed):
+                return True
+        if x['kind'] == 'none_prop':
+            for s_ in rp.switches():
+                c_ = s_['cond']
+                if c_[0] == 'discr' and strip(c_[1])[0] == 'call' and strip(c_[1])[3] == TRY_BRANCH and size_of_region(('payload', strip(c_[1])[2][0], 'Some', 0), lambda r: r == pushed) and \
+                        any(rp.dominates(tgt, x['block']) for lab_, tgt in s_['edges'] if lab_ not in ('Continue',)):
+                    return True
+        return False
+    own_none = [x for x in nones_ if not from_unknown_size(x)]
+    props_ = [x for x in nones_ if from_unknown_size(x)]
+    ctx.ob(['C10', 'C03', 'C01'], 'R-ERR', 'P1|none-only-from-unknown-size', not own_none and len(props_) >= 1,
+           'Regions::push returns None only by propagating an unknown size (%d `?` sites, %d literal None returns)' % (len(props_), len(own_none)), where)
     ctx.ob(['C01', 'C20'], 'R-PAIR', 'P1|skip-only-zero-sized-arrays', other_ok,
            'a region is skipped without being pushed only under size == 0 && is_array (so named zero-sized fields are kept and zero-length padding vanishes): %s' % detail, where)
 
@@ -758,6 +780,26 @@ def tdb_rules(ctx, A):
         from r_panic import cycle_without
         ok8 = bool(L) and not cycle_without(tdb, L[1], L[0], {g8[0].block})
     ctx.ob(['C05', 'C14', 'C13'], 'R-GUARD', 'G8|duplicate-method-rejected', ok8, 'an impl function whose name is already taken (by a vftable, base or earlier function) is rejected, tested in every iteration', g8[0].where() if g8 else where)
+    # ... and "earlier function" needs the name of every function that passed the test to be recorded in that very set, on every trip
+    ok8i, det8i = False, 'no insert into the tested set found in the loop'
+    if len(g8) == 1:
+        L = innermost_loop(tdb, g8[0].block)
+        tested = strip(g8[0].pred[2][0]) if g8[0].pred[2] else None
+        if L and tested is not None:
+            for c_ in tdb.calls(lambda r: r['path'] and re.search(SETM('insert'), r['path'])):
+                if c_['block'] not in L[1] or len(c_['term']['args']) != 2:
+                    continue
+                recv = strip(tdb.expr_of_operand(c_['term']['args'][0]))
+                if recv != tested:
+                    continue
+                val = strip(expand(tdb, tdb.expr_of_operand(c_['term']['args'][1])))
+                named = val[0] == 'field' and val[2] in ('name', '0') or any(isinstance(y, tuple) and y[0] == 'field' and y[2] == 'name' for y in walk(val))
+                own = bool(find_calls(val, 'function::build')) or any(is_call(y, 'Iterator::next') for y in walk(val) if isinstance(y, tuple))
+                every = not cycle_without(tdb, L[1], L[0], {c_['block']})
+                det8i = 'insert(%s) of %s, every trip %s' % (show(recv)[:40], show(val)[:60], every)
+                ok8i = bool(named and own and every)
+    ctx.ob(['C05', 'C14', 'C13'], 'R-PAIR', 'G8|accepted-name-recorded', ok8i,
+           'every impl function that passes the duplicate test has its name recorded in the tested set before the next one is looked at: %s' % det8i, g8[0].where() if g8 else where)
     # a declared field keeps its own name; only the placeholder name `_` (exactly) makes it anonymous
     from r_panic import agg_sites
     regs_ = [(bi, st) for (g_, bi, st) in agg_sites(P, r'type_definition::Region$') if g_ is tdb]
@@ -1150,6 +1192,81 @@ SEQ_PROPS = {
 }
 
 
+ACCUM = re.compile(r'(Vec::<T, A>::(push|extend|insert|extend_from_slice|append)|Extend::extend|HashMap::<K, V, S>::insert|HashSet::<T, S>::insert|BTreeMap::<K, V, A>::insert|'
+                   r'String::push_str|String::push|fmt::Write::write_fmt|io::Write::write_fmt|io::Write::write_all|Entry::<.*>::or_default|Entry::<.*>::or_insert\w*)$')
+EARLY_OK = {'err_own', 'err_prop', 'diverge', 'ok_none', 'none_prop'}
+# loops that may stop early although they accumulate: (function, why)
+EARLY_ALLOWED = {}
+
+
+def _loop_props(fid):
+    if 'dfs_hierarchy' in fid:
+        return ['C07', 'C13']
+    if 'enum_definition' in fid:
+        return ['C08', 'C14']
+    if 'vftable' in fid:
+        return ['C04', 'C06', 'C14']
+    if 'semantic::function' in fid:
+        return ['C05', 'C16']
+    if 'type_definition' in fid:
+        return ['C01', 'C07', 'C14', 'C03']
+    if 'semantic_state' in fid or 'module' in fid or 'type_registry' in fid:
+        return ['C10', 'C14', 'C15']
+    if fid.startswith('backends'):
+        return ['C14', 'C13']
+    if fid.startswith('grammar'):
+        return ['C17', 'C14']
+    return ['C14']
+
+
+def accumulating_loops(ctx):
+    """a `for` loop that builds something up (pushes, inserts, writes) visits EVERY element: it is left only when the iterator is
+    exhausted, or with an error / a deferral.  A `break` or an early `return Ok(..)` in such a loop silently drops the remaining
+    fields / functions / variants / bases / items (a `continue` turned into a `break` passes every other per-trip rule, because no
+    trip skips anything).  Search loops (nothing accumulated) may of course return as soon as they have found something."""
+    P = ctx.prog
+    n = 0
+    for f in P.fns.values():
+        if f.raw.get('derived') or not re.match(r'^(semantic|grammar|backends|util|build)', f.id):
+            continue
+        for (h, body, latches) in f.loops():
+            drv = [bi for bi in body if f.term(bi)['k'] == 'Call' and f.term(bi).get('callee') and f.term(bi)['callee']['path'].endswith('Iterator::next')]
+            drv = [bi for bi in drv if (innermost_loop(f, bi) or (None,))[0] == h]       # the `for` loop itself, not an outer `loop {}` around it
+            if not drv:
+                continue
+            acc = [c for c in f.calls(lambda r: r['block'] in body and r['path'] and (ACCUM.search(r['path']) or ACCUM.search(r.get('gpath') or '')))]
+            # calls of the crate's own functions that take `&mut` state count too (the per-item work is done in a helper)
+            acc += [c for c in f.calls(lambda r: r['block'] in body and r['path'] in P.fns and any(str(t_).startswith('&mut ') for t_ in P.fns[r['path']].raw.get('inputs', [])))]
+            if not acc:
+                continue
+            n += 1
+            bad = []
+            for b in sorted(body):
+                for s_ in f.succ(b):
+                    if s_ in body:
+                        continue
+                    sw = [x for x in f.switches() if x['block'] == b]
+                    exhaust = bool(sw) and sw[0]['cond'][0] == 'discr' and any(isinstance(y, tuple) and y and y[0] == 'call' and str(y[3]).endswith('Iterator::next') for y in walk(sw[0]['cond']))
+                    if exhaust:
+                        continue
+                    ks = f.exit_kinds_from(s_)
+                    if ks <= EARLY_OK:
+                        continue
+                    bad.append((b, sorted(ks)))
+            key = 'no-early-exit|%s|loop' % re.sub(r'\{closure#\d+\}', '{closure}', f.id)
+            k2 = key
+            i = 1
+            while any(o.key.endswith(k2) for o in ctx.obs):
+                i += 1
+                k2 = '%s#%d' % (key, i)
+            why = EARLY_ALLOWED.get(re.sub(r'(::\{closure#\d+\})+$', '', f.id))
+            ctx.ob(_loop_props(f.id), 'R-ITER', k2, not bad or why is not None,
+                   ('accumulating loop is left only when its iterator is exhausted, with an error, or deferring' if not bad else
+                    'an accumulating loop can be left early with a normal result (a `break` / early return drops the remaining elements): exits %s' % bad[:3]) +
+                   (' — reviewed: ' + why if (bad and why) else ''), loc(f.term(h)['span']), nontrivial=bool(bad))
+    ctx.ob(['C14'], 'R-ITER', 'no-early-exit|census', n >= 15, 'accumulating `for` loops examined: %d (floor 15)' % n, nontrivial=False)
+
+
 def seq_rules(ctx):
     P = ctx.prog
     n = 0
@@ -1286,6 +1403,95 @@ def plumbing(ctx):
             okbs = a[0] == 'bin' and a[1] == 'Div' and is_int(a[3], 8) and ('str', 'CARGO_CFG_TARGET_POINTER_WIDTH') in list(walk(a[2])) and \
                 bool(find_calls(a[2], 'env::var')) and bool(find_calls(a[2], 'parse'))
     ob(['C01', 'C02'], 'build_script', okbs, 'build_script takes the pointer size from the TARGET (CARGO_CFG_TARGET_POINTER_WIDTH / 8), not from the host: %s' % det, f)
+    # util::lcm / util::gcd: the minimum required alignment is computed with them (G3); small enough to be checked exactly
+    f = one('util::lcm')
+    okl = False
+    if f:
+        e = single_exit(f)
+        if e is not None and is_call(e, 'Iterator::fold') and len(e[2]) == 3 and strip(e[2][0])[0] == 'arg' and is_int(e[2][1], 1) and e[2][2][0] == 'closure' and e[2][2][1] in P.fns:
+            cf_ = P.fns[e[2][2][1]]
+            ce = single_exit(cf_)
+            if ce is not None and not cf_.switches():
+                ce = strip(ce)
+                acc, x = ('arg', 2), ('arg', 3)
+                is_ = lambda v, w: strip(v)[:2] == w
+                if ce[0] == 'bin' and ce[1] == 'Div' and strip(ce[2])[0] == 'bin' and strip(ce[2])[1] == 'Mul' and \
+                        {strip(strip(ce[2])[2])[:2], strip(strip(ce[2])[3])[:2]} == {acc, x} and is_call(strip(ce[3]), 'util::gcd') and \
+                        {strip(a_)[:2] for a_ in strip(ce[3])[2]} == {acc, x} and len(strip(ce[3])[2]) == 2:
+                    okl = True
+    if f and not okl and len(f.loops()) == 1 and len(f.exits()) == 1:
+        # the same fold written as a loop: `let mut r = 1; for x in iter { r = r * x / gcd(r, x) } r`
+        R_ = strip(f.exits()[0]['expr'])
+        if R_[0] == 'var':
+            defs_ = f.defs().get(R_[1], [])
+            exprs_ = [(d_, strip(f.expr_of_def(d_))) for d_ in defs_]
+            one_ = [d_ for d_, e_ in exprs_ if is_int(e_, 1)]
+            upd_ = [(d_, e_) for d_, e_ in exprs_ if e_[0] == 'bin' and e_[1] == 'Div']
+            h_, body_, _l = f.loops()[0]
+            if len(defs_) == 2 and len(one_) == 1 and len(upd_) == 1:
+                d_, e_ = upd_[0]
+                num, den = strip(e_[2]), strip(e_[3])
+                el_ok = lambda v: strip(v)[0] == 'payload' and strip(v)[2] == 'Some' and is_call(strip(strip(v)[1]), 'Iterator::next')
+                isR = lambda v: strip(v)[:2] == R_[:2]
+                okn_ = num[0] == 'bin' and num[1] == 'Mul' and ((isR(num[2]) and el_ok(num[3])) or (isR(num[3]) and el_ok(num[2])))
+                okd_ = is_call(den, 'util::gcd') and len(den[2]) == 2 and ((isR(den[2][0]) and el_ok(den[2][1])) or (isR(den[2][1]) and el_ok(den[2][0])))
+                from r_panic import cycle_without
+                sty_, src_ = loop_source(f, f.loops()[0])
+                srcs_ = strip(src_) if src_ else None
+                while srcs_ is not None and srcs_[0] == 'call' and srcs_[2] and re.search(r'IntoIterator::into_iter$', srcs_[3] if len(srcs_) > 3 else srcs_[1]):
+                    srcs_ = strip(srcs_[2][0])
+                okl = bool(okn_ and okd_ and d_[0] in body_ and not cycle_without(f, body_, h_, {d_[0]}) and one_[0][0] not in body_ and srcs_ is not None and srcs_[0] == 'arg')
+    ob(['C03', 'C02'], 'util::lcm', okl, 'lcm(xs) = fold(1, |acc, x| acc * x / gcd(acc, x)): starts at 1, every element folded in', f)
+    f = one('util::gcd')
+    okg_ = False
+    isl = lambda e_, i_: strip(e_)[0] in ('var', 'arg') and strip(e_)[1] == i_
+    if f and f.nargs == 2 and len(f.loops()) == 1:
+        h_, body_, _l = f.loops()[0]
+        sw_ = [s_ for s_ in f.switches()]
+        ex_ = f.exits()
+        if len(sw_) == 1 and sw_[0]['block'] in body_ and len(ex_) == 1 and isl(ex_[0]['expr'], 1):
+            c_ = strip(sw_[0]['cond'])
+            cont = c_[0] == 'bin' and c_[1] in ('Ne', 'Eq') and isl(c_[2], 2) and is_int(c_[3], 0) and \
+                all(((tgt in body_) == ((lab is True) == (c_[1] == 'Ne'))) for lab, tgt in sw_[0]['edges'])
+            # one trip round the loop, executed symbolically from a = A, b = B: it must end with a = B, b = A % B
+            st = {1: 'A', 2: 'B'}
+
+            def val(op):
+                if op.get('k') in ('Copy', 'Move') and not op['place']['proj']:
+                    return st.get(op['place']['local'], ('?', op['place']['local']))
+                if op.get('k') in ('Copy', 'Move') and len(op['place']['proj']) == 1 and op['place']['proj'][0].get('k') == 'Field':
+                    t_ = st.get(op['place']['local'])
+                    i_ = op['place']['proj'][0].get('idx', op['place']['proj'][0].get('name'))
+                    if isinstance(t_, tuple) and t_ and t_[0] == 'tuple' and str(i_).isdigit() and int(i_) < len(t_[1]):
+                        return t_[1][int(i_)]          # `(a, b) = (b, a % b)`
+                if op.get('k') == 'Const':
+                    return ('const', op.get('val'))
+                return ('?',)
+            cur = [tgt for lab, tgt in sw_[0]['edges'] if tgt in body_]
+            cur = cur[0] if cur else None
+            steps = 0
+            straight = True
+            while cur is not None and cur != h_ and steps < 20:
+                steps += 1
+                for st_ in f.blocks[cur]['stmts']:
+                    if st_['k'] != 'Assign' or st_['place']['proj']:
+                        continue
+                    rv = st_['rv']
+                    if rv['k'] == 'Use':
+                        st[st_['place']['local']] = val(rv['op'])
+                    elif rv['k'] == 'BinaryOp':
+                        st[st_['place']['local']] = (rv['op'], val(rv['a']), val(rv['b']))
+                    elif rv['k'] == 'Aggregate' and rv.get('agg') == 'Tuple':
+                        st[st_['place']['local']] = ('tuple', [val(o_) for o_ in rv['ops']])
+                    else:
+                        st[st_['place']['local']] = ('?',)
+                nxt = [y for y in f.succ(cur) if y in body_ or y == h_]
+                if len(nxt) != 1:
+                    straight = False
+                    break
+                cur = nxt[0]
+            okg_ = bool(cont and straight and cur == h_ and st.get(1) == 'B' and st.get(2) == ('Rem', 'A', 'B'))
+    ob(['C03', 'C02'], 'util::gcd', okg_, 'gcd is Euclid\'s algorithm: while b != 0 { t = b; b = a % b; a = t }; a', f)
     f = one('type_definition::Region::size')
     e = single_exit(f) if f else None
     okr = e is not None and is_call(e, 'Type::size') and strip(e[2][0]) == ('field', ('arg', 1, 'self'), 'type_ref')
